@@ -450,6 +450,14 @@ class Ctx:
         m = re.match(r"^'(.)'$", t)
         if m:
             return Int(ord(m.group(1)), 32)
+        m = re.match(r"^(?:core::num::<impl )?(\w+?)>?::(MAX|MIN|BITS)$", t)
+        if m and m.group(1) in INT_TYPES:
+            b, sg = INT_TYPES[m.group(1)]
+            if m.group(2) == "BITS":
+                return Int(b, 32)
+            if m.group(2) == "MAX":
+                return Int(((1 << (b - 1)) - 1) if sg else ((1 << b) - 1), b, sg)
+            return Int((1 << (b - 1)) if sg else 0, b, sg)
         m = re.match(r"^(.*)::(promoted\[\d+\])$", t, re.S)
         if m:
             f = self.resolve(m.group(1))
@@ -457,6 +465,13 @@ class Ctx:
                 return self.run_fn(self.fns[f.name + "::" + m.group(2)], [])
             # unresolved promoted constant (typically format-string pieces feeding a panic message)
             return Obj("promoted", "?", text=t)
+        if re.match(r"^(\w+::)*[A-Z]\w*$", t):
+            # a unit struct (or unit enum variant) used as a value
+            segs = t.split("::")
+            if len(segs) >= 2 and self.src.variants("::".join(segs[:-1])) is not None \
+                    and self.src.variant_index("::".join(segs[:-1]), segs[-1]) is not None:
+                return Agg("::".join(segs[:-1]), {}, segs[-1])
+            return Agg(t, {})
         raise Unsupported("constant %r" % text)
 
     def operand(self, frame, op):
